@@ -1987,3 +1987,20 @@ func init() {
 		}),
 	)
 }
+
+func init() {
+	staleHeight := func(id string) core.Rule {
+		return rule(id, "stale index entries are removed for the height that is being re-committed", 2, func(r *Run) {
+			// DelLeafCountKV loads the abandoned roots into fresh trees (block height 0) and asks each to drop its
+			// version-index entries of `height`: both the scan prefix and the deleted keys must be built from that
+			// parameter, not from the tree's own height.
+			fn := mdbT + "RemoveLeafCountKey"
+			core.CallArgs{Fn: fn, Callee: []string{mdb + "genLeafCountKey"}, What: "the deleted index key carries the requested height", Args: map[int]core.ExprPred{2: core.IsObj("param:0")}, Min: 1}.Check(r)
+			core.CallArgs{Fn: fn, Callee: []string{mdb + "genPrefixHashKey"}, What: "the scan covers the nodes stored at the requested height", Args: map[int]core.ExprPred{1: core.IsObj("param:0")}, Min: 1}.Check(r)
+			core.CallArgs{Fn: mdb + "DelLeafCountKV", Callee: []string{fn}, What: "the height being re-committed", Args: map[int]core.ExprPred{0: core.IsObj("param:1")}, Min: 1}.Check(r)
+		})
+	}
+	extend("C05", "R05f (added after a seeded change was missed): the clean-up of a re-committed height is keyed by that height.", staleHeight("R05f"))
+	extend("C02", "R02j (same rule as R05f: otherwise a pruning store later loses a live node and cannot compute the root a plain store computes).", staleHeight("R02j"))
+	extend("C04", "R04h (same rule as R05f: an abandoned pending branch's bookkeeping must not outlive the re-commit of its height).", staleHeight("R04h"))
+}
